@@ -5,6 +5,30 @@ HERE = os.path.dirname(os.path.dirname(os.path.abspath(__file__)))
 ALL = ["C%02d" % i for i in range(1, 21)]
 
 CHECKS = {
+ "C03": dict(
+  category="model_checking",
+  text="Convert.tla (Mode=chain): state = (initial interface, current abstract interface or Top, formats visited); Hop(f) is one "
+       "emit->render->re-read->parse round trip using the rules of FormatRules/DocRules. TLC checks PreservedIdeal and Commute "
+       "for every chain of <=5 hops over {class, pydantic, function, argparse, docstring-rest} on the common representable "
+       "domain (ideal rules, ~720k states) and Preserved on the as-built rules. Binding: every chain of length 2..3 x interface "
+       "(exhaustive for 1 parameter in quick, 2 in thorough) and TLC -simulate chains of length 4..5 are replayed hop by hop "
+       "through the real code; verdict: the core (names, order, types, defaults) of the real IR after every hop equals the "
+       "initial core; a failing chain is a known finding only if a listed single-hop deviation fires on it in the model.",
+  design_ref="DESIGN.md section 4, C03",
+  note="Trusted: gamma; the fixed per-format configuration used inside chains (Convert!CfgOf). Common domain = scalar / "
+       "Optional[scalar] / Literal types with a default on every parameter.",
+  technique="TLA+ conversion state machine, TLC exhaustive over chains, behaviours replayed hop by hop through the real code"),
+ "C08": dict(
+  category="model_checking",
+  text="Convert.tla (Mode=fix): the same format applied 2..4 times. TLC checks the action property Fix (after the first round a "
+       "round changes nothing) on the ideal rules over the hostile domain (untyped entries, trigger-word descriptions, defaults in "
+       "any position) and on the as-built rules with the listed C08 deviations. Binding: every (format, interface) behaviour is "
+       "replayed through the real code and the real IR after round n+1 must equal the real IR after round n exactly; a later "
+       "round that raises after round 1 succeeded is a failure.",
+  design_ref="DESIGN.md section 4, C08",
+  note="Trusted: gamma. Formats covered: class, pydantic, function, argparse, docstring-rest (json_schema and sqlalchemy variants "
+       "are exercised by C05/C06's own second-round checks).",
+  technique="TLA+ conversion state machine with an action property, behaviours replayed round by round through the real code"),
  "C02": dict(
   category="model_checking",
   text="Formats.tla: a behaviour picks (format in class/pydantic/function/argparse, docstring style, emit_default_doc, "
